@@ -19,7 +19,7 @@ B = 'B:'    # file in the build directory
 
 
 @st.composite
-def projects(draw, max_steps=9, allow_always=True):
+def projects(draw, max_steps=9, allow_always=True, allow_clash=False):
     nsrc = draw(st.integers(2, 6))
     sources = []
     for i in range(nsrc):
@@ -177,6 +177,12 @@ def projects(draw, max_steps=9, allow_always=True):
             model['nested_driver_tests'] = [draw(st.sampled_from(rest))]
     if bins and draw(st.integers(0, 3)) == 0:
         model['install'] = [draw(st.sampled_from(bins))]
+    files_ = [s['id'] for s in steps if s['kind'] in ('exe', 'step', 'copy')]
+    if allow_clash and files_ and draw(st.integers(0, 11)) == 0:
+        # an invalid script: a named target declared after a step that
+        # already produces a file of that name (must be rejected)
+        model['clash'] = [draw(st.sampled_from(files_)),
+                          draw(st.sampled_from(['alias', 'command']))]
     return model
 
 
@@ -309,7 +315,9 @@ def reference_graph(model):
                       # a link has the time stamp of the file it points to:
                       # it need not be re-made when that file changes, yet
                       # its consumers see the change
-                      'transparent': st_.get('mode', 'copy') != 'copy'})
+                      'transparent': st_.get('mode', 'copy') != 'copy',
+                      'link': (st_.get('mode') if st_.get('mode', 'copy') !=
+                               'copy' else None)})
         elif kind == 'alias':
             g.append({'key': 'ALIAS:' + st_['name'], 'sid': st_['id'],
                       'inputs': extra, 'outputs': ['P:' + st_['name']],
@@ -375,10 +383,11 @@ def default_goals(model, g):
     return goals
 
 
-def dirty_after_touch(need, touched, may=False):
+def dirty_after_touch(need, touched, may=False, replaced=False):
     """Keys of the steps in `need` that must (may=False) or may (may=True)
     re-run after `touched` changed, with always-outdated steps re-running
-    anyway."""
+    anyway.  replaced: the file was replaced by a new one (new inode), so a
+    hard link to it still is the old file and has to be made again."""
     dirty = set()
     changed = {touched} if touched else set()
     progress = True
@@ -389,7 +398,9 @@ def dirty_after_touch(need, touched, may=False):
                 continue
             ins = m['inputs'] | (m.get('optional', set()) if may else set())
             if m['always'] or (ins & changed):
-                if m.get('transparent') and not may and not m['always']:
+                if m.get('transparent') and not may and not m['always'] and \
+                        not (replaced and m.get('link') == 'hardlink' and
+                             touched in m['inputs']):
                     if not set(m['outputs']) <= changed:
                         changed.update(m['outputs'])
                         progress = True
@@ -491,6 +502,13 @@ def script(model):
                 extra += ', environment={!r}'.format(st_['env'])
             L.append('{} = command({!r}, cmd=["rec", "CMD:{}"]{})'.format(
                 v, st_['name'], st_['name'], extra))
+    if model.get('clash'):
+        st_ = step_by_id(model)[model['clash'][0]]
+        if model['clash'][1] == 'alias':
+            L.append('alias({!r}, [])'.format(out_name(model, st_)))
+        else:
+            L.append('command({!r}, cmd=["true"])'.format(
+                out_name(model, st_)))
     if model['default']:
         L.append('default({})'.format(', '.join(
             'v{}'.format(i) for i in model['default'])))
